@@ -92,9 +92,28 @@ TZ_MINUTES = {'p00': [0], 'pH0': [60, 300, 840, 1380], 'p0M': [1, 30, 45, 59], '
               'nH0': [-60, -300, -720, -1380], 'n0M': [-1, -25, -30, -59], 'nHM': [-61, -210, -570, -1439]}
 
 
+class ZeroOffset(datetime.tzinfo):
+    """a user-defined time zone whose offset is zero (stands for zoneinfo's UTC / Europe/London in winter / pytz zones)"""
+    def utcoffset(self, dt):
+        return TD(0)
+
+    def dst(self, dt):
+        return TD(0)
+
+    def tzname(self, dt):
+        return 'ZERO'
+
+    def __repr__(self):
+        return 'ZeroOffset()'
+
+
 def tz_of_shape(rng, z, free=False):
     if z == 'utc':
         return TZ.utc
+    if z == 'p00':
+        # a zero offset carried by a tzinfo that is NOT the timezone.utc singleton (timezone(timedelta(0)) is that singleton):
+        # what the text says must depend on the offset, not on which object carries it
+        return rng.choice([TZ(TD(0), 'zero'), ZeroOffset()])
     if not free:
         return TZ(TD(minutes=rng.choice(TZ_MINUTES[z])))
     h = rng.randrange(1, 24) if z[1] == 'H' else 0
@@ -307,14 +326,21 @@ LOADERS = ['SafeLoader', 'CSafeLoader']
 
 
 # ------------------------------------------------------------------------------------------------ one observation
-def observe(yaml, value, opts, dumper, loaders=LOADERS):
-    """dump once, load with every loader -> [(loader, outcome, text, loaded-or-exception)]"""
+def dump_once(yaml, value, opts, dumper):
+    """-> (text, None) or (None, error)"""
     try:
-        text = yaml.dump(value, Dumper=getattr(yaml, dumper), **opts)
+        return yaml.dump(value, Dumper=getattr(yaml, dumper), **opts), None
     except RecursionError as e:
-        return [(l, 'dump-error', None, 'RecursionError') for l in loaders]
+        return None, 'RecursionError'
     except Exception as e:
-        return [(l, 'dump-error', None, '%s: %s' % (type(e).__name__, str(e)[:200])) for l in loaders]
+        return None, '%s: %s' % (type(e).__name__, str(e)[:200])
+
+
+def observe(yaml, value, opts, dumper, loaders=LOADERS, dumped=None):
+    """dump once (or take the result of dump_once), load with every loader -> [(loader, outcome, text, loaded-or-exception)]"""
+    text, err = dumped if dumped is not None else dump_once(yaml, value, opts, dumper)
+    if err is not None:
+        return [(l, 'dump-error', None, err) for l in loaders]
     res = []
     for l in loaders:
         try:
@@ -562,6 +588,41 @@ def effective_width(opts):
     return w if w and w > ind * 2 else 80
 
 
+ESC2 = set('\0\x07\x08\t\n\x0b\x0c\r\x1b"\\\x85\xa0\u2028\u2029')
+
+
+def dq_written_len(s, allow_unicode=False):
+    """the number of characters of s as a double-quoted scalar on one line (emitter.py write_double_quoted)"""
+    n = 2
+    for ch in s:
+        if ch in '"\\\x85\u2028\u2029\ufeff' or not ('\x20' <= ch <= '\x7e' or (allow_unicode and ('\xa0' <= ch <= '\ud7ff' or '\ue000' <= ch <= '\ufffd'))):
+            n += 2 if ch in ESC2 else 4 if ch <= '\xff' else 6 if ch <= '\uffff' else 10
+        else:
+            n += 1
+    return n
+
+
+def overlong_simple_key(x, allow_unicode=False):
+    """a str that the emitter writes as a simple key (tag handle + raw text < 128 characters) although its written form
+    is longer than the 1024 characters after which the scanner gives a simple key up (D12)"""
+    return type(x) is str and 5 + len(x) < 128 and dq_written_len(x, allow_unicode) > 1024
+
+
+def has_overlong_key(value, allow_unicode, seen=None):
+    seen = seen if seen is not None else set()
+    if type(value) in (list, set, dict):
+        if id(value) in seen:
+            return False
+        seen.add(id(value))
+        if type(value) is list:
+            return any(has_overlong_key(x, allow_unicode, seen) for x in value)
+        keys = list(value)
+        if any(overlong_simple_key(k, allow_unicode) for k in keys):
+            return True
+        return type(value) is dict and any(has_overlong_key(v, allow_unicode, seen) for v in value.values())
+    return False
+
+
 def classify(yaml, value, opts, dumper, loader, outcome, text, back, why):
     """key dict of a TLC-rejected observation: the input class that failed (which feature of which scalar, written
     in which style by which emitter), so that a known finding suppresses exactly its own class"""
@@ -569,8 +630,11 @@ def classify(yaml, value, opts, dumper, loader, outcome, text, back, why):
     if outcome != 'ok':
         key['error'] = str(back).split(':')[0]
         # the failure is attributed to a feature of the value when the value without that feature round-trips
+        uni = bool(opts.get('allow_unicode'))
         if has_sec_offset(value) and loads(yaml, map_leaves(value, whole_minute_offset), opts, dumper, loader):
             key['feature'] = 'datetime-utcoffset-with-seconds'
+        elif has_overlong_key(value, uni) and loads(yaml, map_leaves(value, lambda x: x[:60] if overlong_simple_key(x, uni) else x), opts, dumper, loader):
+            key['feature'] = 'simple-key-over-1024-written-characters'
         else:
             key['feature'] = outcome
         return key
@@ -836,11 +900,65 @@ def grid_cases(i):
     return out
 
 
+# ------------------------------------------------------------------------------------------------ strings in contexts
+# concretisation of the states of spec/StrContext.tla: text = code points; ctx = [path, sib]; opts = [flow, style]
+STR_STYLE = {'': None, 'sq': "'", 'dq': '"', 'lit': '|', 'fold': '>'}
+STR_FLOW = {'T': True, 'F': False, 'N': None}
+STYLE_OF_CHAR = {"'": 'sq', '"': 'dq', '|': 'lit', '>': 'fold'}
+
+
+def strctx_value(cps, path, sib):
+    """the text at the end of the path (outermost step first); the innermost container has a second entry after /
+    before the text's own when sib says so.  Neighbours are 'a', 'z', 'k', 'v' (not in the alphabet of the model)."""
+    s = ''.join(map(chr, cps))
+    if not path:
+        return s
+    last = path[-1]
+    if last == 'item':
+        x = {'none': [s], 'after': [s, 'z'], 'before': ['a', s]}[sib]
+    elif last == 'key':
+        x = {'none': {s: 'v'}, 'after': {s: 'v', 'z': 'v'}, 'before': {'a': 'v', s: 'v'}}[sib]
+    else:
+        x = {'none': {'k': s}, 'after': {'k': s, 'z': 'v'}, 'before': {'a': 'v', 'k': s}}[sib]
+    for step in reversed(path[:-1]):
+        x = [x] if step == 'item' else {'k': x}
+    return x
+
+
+def strctx_opts(o):
+    return {'default_flow_style': STR_FLOW[o['flow']], 'default_style': STR_STYLE[o['style']], 'sort_keys': False}
+
+
+def strctx_real_style(text, pre):
+    """how the real emitter wrote the scalar that starts after `pre` (None when the layout is not the model's)"""
+    if not isinstance(text, str) or not text.startswith(pre):
+        return None
+    return STYLE_OF_CHAR.get(text[len(pre):len(pre) + 1], 'plain')
+
+
+def strctx_parsed_style(yaml, text, path, sib):
+    """the style of the scalar event that carries the text of the state (located by its place), from re-parsing"""
+    idx = sum(1 for step in path[:-1] if step == 'value')
+    if path:
+        idx += {'item': 0, 'key': 0, 'value': 1}[path[-1]]
+        if sib == 'before':
+            idx += 1 if path[-1] == 'item' else 2
+    try:
+        evs = [ev for ev in yaml.parse(text, Loader=yaml.SafeLoader) if isinstance(ev, yaml.ScalarEvent)]
+    except Exception:
+        return None
+    if idx >= len(evs):
+        return None
+    return STYLE_OF_CHAR.get(evs[idx].style, 'plain')
+
+
 # ------------------------------------------------------------------------------------------------ recipes, variants (C16)
 def rebuild(rec):
     """recipe -> (value, opts): deterministic, also across interpreters with different hash seeds"""
     if rec['kind'] == 'state':
         value = build_value(rec['heap'], rec['root'], random.Random(rec['rseed']))
+    elif rec['kind'] == 'strctx':
+        value = strctx_value(rec['text'], rec['path'], rec['sib'])
     elif rec['kind'] == 'grid':
         value = GRID_CONTEXTS[rec['context']](GRID[rec['string']])
     else:
